@@ -89,6 +89,7 @@ class Path(PathRun, ExprMixin, CallMixin, BuiltinMixin, StmtMixin):
             t = Val.VObj(self.allocp)
             self.allocp = z3.simplify(self.allocp - 1)
             self.assume(truthyV(t))
+            self.set_fld('__ctor__', t, Val.VInt(z3.IntVal(class_id('ctor:' + nm))))     # which constructor built the object (isinstance tests)
             vals = dict(zip(attrs, args))
             vals.update(kw)
             for a in attrs:
@@ -581,7 +582,7 @@ class Driver:
             if isinstance(v, SObj):
                 allowed.add((v.oid, parts[-1]))
         for fname, arr in p.fields.items():
-            if f'fields:{fname}' in c.modifies:
+            if f'fields:{fname}' in c.modifies or fname.startswith('__'):
                 continue
             init = p.pre_fields.get(fname, p.fields0.get(fname))
             if init is not None and not arr.eq(init):
